@@ -102,6 +102,11 @@ def _is_zero(e: ast.AST) -> bool:
 
 def _is_negation(pat: ast.AST, node: ast.AST, b: dict[str, str]) -> bool:
     """Whether `node` is the negation of the test `pat` (pattern variables bound along the way)."""
+    if isinstance(pat, ast.Name) and pat.id.startswith(_MVE):
+        # any test is the negation of *some* test: the slot is bound to it, negated
+        key = pat.id[len(_MVE):]
+        t = f"not ({norm(node)})"
+        return key == "_" or b.setdefault("$$" + key, t) == t
     if isinstance(node, ast.UnaryOp) and isinstance(node.op, ast.Not) and match(pat, node.operand, b):
         return True
     if isinstance(pat, ast.UnaryOp) and isinstance(pat.op, ast.Not) and match(pat.operand, node, b):
